@@ -73,6 +73,7 @@ ProjOK(r) == \E F \in {St(r.t, r.st, r.o)} :
             Le(D!DScale(big, -2), den) =>
                AbsLe(Sb(Mul(tf, den), Mul(F.n, Sb(hi, lo))), Mul(D!DScale(E(t), 2), Mul(Add(One, D!DSq(tf)), big)))
     IN  /\ (r.degenerate = 1) = ~FC!NonDegenerate(F)
+        /\ r.hy = <<r.st[1], r.st[2]>>                       \* hither / yon are the near / far planes
         /\ FC!WellFormed(F) =>
              /\ \A i \in 1..4, j \in 1..4 : QuotIs(M[i][j], FC!ProjEntry(F, i, j), E(t))
              /\ fovrel(tfx, F.r, F.l) /\ fovrel(tfy, F.t, F.b)
@@ -182,7 +183,11 @@ CullOK(r) == \E c \in {[pl |-> [k \in 1..6 |-> <<PN(r.t, r.planes[k]), PD(r.t, r
         /\ r.cs = 1 => \A k \in 1..6 : Lt(Add(sd(k, c.sc), c.sr), mg(k, c.sc))
         /\ (\A k \in 1..6 : Lt(Add(sd(k, c.sc), c.sr), D!DNeg(mg(k, c.sc)))) => r.cs = 1
 
-Judge(r) == CASE r.e = "step" -> StepOK(r) [] r.e = "proj" -> ProjOK(r) [] r.e = "pt" -> PtOK(r) [] r.e = "depth" -> DepthOK(r)
+\* operator== / != : equal to a copy and to an assigned object, different from a frustum that differs in one component
+EqOK(r) == /\ r.eq = <<1, 1, 0, 0, 0, 0, 0, 0, 0>>
+           /\ r.ne = <<0, 0, 1, 1, 1, 1, 1, 1, 1>>
+
+Judge(r) == CASE r.e = "freq" -> EqOK(r) [] r.e = "step" -> StepOK(r) [] r.e = "proj" -> ProjOK(r) [] r.e = "pt" -> PtOK(r) [] r.e = "depth" -> DepthOK(r)
               [] r.e = "setfov" -> SetFovOK(r) [] r.e = "planesM" -> PlanesMOK(r) [] r.e = "cull" -> CullOK(r) [] OTHER -> FALSE
 What(r) == CASE r.e = "step" -> <<r.e, r.t, r.op, r.prog, r.step>> [] r.e \in {"planesM", "cull"} -> <<r.e, r.t, r.fam>> [] OTHER -> <<r.e, r.t>>
 Init == l = 1 /\ cur = <<<<>>, <<>>, 0>>
